@@ -22,7 +22,7 @@ def strata(tier):
         maxsizes=(2, 1, 3, 5, 0, None),
         weights={'call': 14, 'burst': 1, 'load': 2, 'dump': 1, 'dumpk': 1, 'loadk': 1, 'clear': 2, 'clearkeep': 2,
                  'arch_off': 1, 'arch_on': 1, 'awrite': 2, 'arch_query': 1},
-        max_ops=30 if tier == 'quick' else 60, pool=(3, 7), prefill_pct=30,
+        max_ops=30 if tier == 'quick' else 60, pool=(3, 7), attach_later_pct=12, prefill_pct=30,
         raising_pct=12)
 
 
